@@ -175,6 +175,12 @@ func genOffender(seed uint64, tier string, force string) *Scenario {
 		off.Then = []string{"fin", "rst"}[r.Intn(2)]
 	case "silence", "keepalive":
 		off.Skew = []int64{0, 0, 3600, -3600, 86400 * 365, -946684000}[r.Intn(6)]
+		if off.Kind == "silence" && r.Bool(0.3) {
+			off.Then = "stalled"
+			off.Witness = 0
+			off.N = []int{0, 5, 40, 100}[r.Intn(4)]
+			sc.World.Net.Window = []int{2 << 10, 4 << 10}[r.Intn(2)]
+		}
 		sc.World.IdleTimeout = []time.Duration{time.Second, 2 * time.Second, 30 * time.Second, 5 * time.Minute}[r.Intn(4)]
 		// frames short enough that the set-up cannot run into the idle timeout, long enough
 		// to keep the number of frame ticks per run bounded
